@@ -338,7 +338,7 @@ def hook_disagreements(expect: list[list[int]], res: dict, events: list[dict] | 
     return out
 
 
-def hook_signature(events: list[dict], h: int, direction: str) -> str:
+def hook_signature(events: list[dict], h: int, direction: str, obs_row: list[int] | None = None) -> str:
     """Form sequence reduced to what can matter for hook h: was it unregistered; does it go through the *_case path; is it
     the only registration made through its registrar (then its own form matters) or does it share the registrar with others."""
     regs = [e for e in events if e["ev"] == "reg"]
@@ -356,6 +356,11 @@ def hook_signature(events: list[dict], h: int, direction: str) -> str:
         return "C19:hooks.apply:%s" % direction
     if shared:
         return "C19:register:several-registrations-through-one-registrar"
+    if direction == "missing" and obs_row is not None and not any(obs_row):
+        # a registered hook that is the only one of its registrar and runs for no operation at all: not a filter mix-up
+        if any(x["ev"] == "unreg" and x["r"] == scope for x in events[pos + 1:]):
+            return "C19:unregister:removed-another-hook"
+        return "C19:dispatch:%s-scope-hook-never-applied" % scope
     return "C19:register:single:%s" % e["f"]
 
 
@@ -460,7 +465,7 @@ def _hook_violations(case: dict, res: dict, cat: dict) -> list[Violation]:
     data = {"kind": "hooks", "events": events, "ops": cat["ops"], "expect": case["expect"]}
     seen_sig = set()
     for h, o, d in hook_disagreements(case["expect"], res, case["events"]):
-        sig = hook_signature(case["events"], h, d)
+        sig = hook_signature(case["events"], h, d, res["obs"][h - 1] if o else None)
         if sig in seen_sig:
             continue
         seen_sig.add(sig)
@@ -527,7 +532,8 @@ def run(ctx: Ctx) -> Outcome:
         to_confirm: list[int] = []
         for i in dis_idx:
             case = json.loads(items[i])
-            sigs = {hook_signature(case["events"], h, d) for h, o, d in hook_disagreements(case["expect"], results[i], case["events"])} or {"data"}
+            sigs = {hook_signature(case["events"], h, d, results[i]["obs"][h - 1] if o else None)
+                    for h, o, d in hook_disagreements(case["expect"], results[i], case["events"])} or {"data"}
             if any(per_sig.get(sg, 0) < 60 for sg in sigs):
                 to_confirm.append(i)
             for sg in sigs:
